@@ -136,6 +136,8 @@ type Alias struct {
 }
 
 type Param struct {
+	// OwnField keeps this parameter out of a grouped field even if its neighbour has the same type
+	OwnField bool `json:"own_field,omitempty"`
 	// BreakBefore starts a new source line before this parameter (multi-line signatures / grouped fields
 	// that span lines); position marks of such methods only cover what precedes the first break
 	BreakBefore bool   `json:"break_before,omitempty"`
